@@ -74,6 +74,18 @@ def run(ctx):
         c["line"] = condgen.case_line(c, consts_hex, valid)
         big.append(c)
     cases += big
+    # deterministic boundary sweep of spent amounts: every 2^k-1, 2^k, 2^k+1
+    sweep = []
+    for k in range(65):
+        for d in (-1, 0, 1):
+            v = (1 << k) + d
+            if 0 <= v < (1 << 64):
+                spends = g.sc_amount(v)
+                c = {"tree": g.bundle_tree(spends), "flags": 0x10000 | (0x800000 if k % 2 else 0), "visitor": (k + d) % 2, "max_cost": 11000000000,
+                     "clvm_cost": 0, "tags": [("AMOUNT", "2^%d%+d" % (k, d))], "scenario": "amount-sweep", "keys": [x for s in spends for x in s["keys"]], "spends": spends, "std": True}
+                c["line"] = condgen.case_line(c, consts_hex, valid | set(g.keys))
+                sweep.append(c)
+    cases += sweep
     lines = [c["line"] for c in cases]
     impl, model = condlib.run_both(lines, ctx["have_model"])
     condlib.stream_stats(rep, "cond.value", cases, impl)
@@ -92,5 +104,21 @@ def run(ctx):
         d = condlib.parse_ok(o)
         if d and int(d["rem"]) >= 1 << 64:
             big_sums += 1
+    # Coin::coin_id (chia-protocol) on the same boundary amounts, against the independent oracle and the model
+    cl, meta = [], []
+    for k in range(65):
+        for d in (-1, 0, 1):
+            v = (1 << k) + d
+            if 0 <= v < (1 << 64):
+                parent, ph = rng.bytes(32), rng.bytes(32)
+                cl.append("cond.coinid %s %s %d" % (parent.hex(), ph.hex(), v))
+                meta.append((parent, ph, v))
+    ci, cm = condlib.run_both(cl, ctx["have_model"])
+    if ctx["have_model"]:
+        diff_stream(rep, "cond.coinid", cl, ci, cm, lambda c, i: c.split(" ")[3])
+    for l, o, (parent, ph, v) in zip(cl, ci, meta):
+        want = hashlib.sha256(parent + ph + canon(v)).hexdigest()
+        if o != want:
+            rep.add_failure("cond.coinid/oracle", l, o, want, "Coin::coin_id is not SHA-256(parent, puzzle hash, minimal big-endian amount)")
     rep.streams["cond.value"]["oracle_checked_accepted"] = sum(1 for o in impl if o.startswith("OK"))
     rep.streams["cond.value"]["accepted_with_total_over_64_bits"] = big_sums
